@@ -353,11 +353,11 @@ def h_eq_rendering(I):
 
 def cells(tier):
     quick = tier == "quick"
-    hi = 99 if quick else 9999
+    hi = 99 if quick else 999
     tb = f"symbolic ints in [1,{hi}], spelled as int or decimal string (symbolic choice)"
     vb = "symbolic printable strings of 0..1 chars"
     out = []
-    for n in ((1, 2) if quick else (1, 2, 3)):
+    for n in (1, 2):
         for op, oname in ((None, "any"),) if n == 1 else ((0, "replace"), (1, "setitem"), (2, "delete")):
             out.append(Cell(f"set-get/{n}/{oname}", (lambda I, n=n, op=op: h_set_get(I, n, hi, op)), dict(entries=n, tags=tb, values=vb,
                             then="contains / get / default, then " + ("replace / __setitem__ / delete" if op is None else oname) + " with a symbolic tag"),
@@ -387,5 +387,5 @@ def cells(tier):
 ASSUMPTIONS = ["collections.OrderedDict is replaced by an insertion-ordered association list with symbolic key equality (vfx/chx.py); every path is re-run on the real OrderedDict in the concrete replay",
                "tags that int() accepts but that are not plain decimal digits ('+5', '1_0') are neither required to be accepted nor to be refused"]
 STUBS = []
-OUTSIDE = ["pickle round trip (C-level pickle realises everything: not claimed)", "float values other than a fixed one (str(float) is C code)",
+OUTSIDE = ["containers with 3 entries before the operation (tree did not exhaust in 10 min per cell)", "pickle round trip (C-level pickle realises everything: not claimed)", "float values other than a fixed one (str(float) is C code)",
            "containers with more than 3 entries / groups with more than 3 items", "operation sequences longer than build + one operation"]
